@@ -101,12 +101,18 @@ FUNCS += [
     dict(id='DeleteToml', file='src/delete.rs', fn='delete', mod='toml', impl=r"impl Delete for Value", lean='toml.delete',
          params=[('self', 'docself'), ('ptr', 'ptrself')], ret='mutdoc', rtype=DEL_T, imports=['ResolveMutToml', 'SplitBack', 'ForLen'], backend='toml'),
 ]
+FUNCS += [
+    dict(id='ExpandJson', file='src/assign.rs', fn='expand', mod='json', impl=None, lean='json.expand',
+         params=[('remaining', 'ptrself'), ('value', 'val')], ret='pure', rtype='Val', imports=['SplitBack']),
+    dict(id='ExpandToml', file='src/assign.rs', fn='expand', mod='toml', impl=None, lean='toml.expand',
+         params=[('remaining', 'ptrself'), ('value', 'val')], ret='pure', rtype='Val', imports=['SplitBack']),
+]
 SIBLINGS = {'split_back': ('Pointer.split_back', 'opt(tuple:ptrself,tok)'), 'split_front': ('Pointer.split_front', 'opt(tuple:tok,ptrself)'), 'is_root': ('Pointer.is_root', 'bool'), 'count': ('Pointer.count', 'nat'), 'split_at': ('Pointer.split_at', 'opt(tuple:bytes,bytes)'),
             'front': ('Pointer.front', 'opt(bytes)'), 'back': ('Pointer.back', 'opt(bytes)')}
 
 LEANTY = {'nat': 'Nat', 'bool': 'Bool', 'bytes': 'Bytes', 'cow': 'Cow', 'optnat': 'Option Nat', 'toklist': 'List Bytes',
           'tok': 'Bytes', 'index': 'Index', 'bound': 'Bound', 'ptr': 'Bytes', 'span': 'Span', 'tokself': 'Bytes',
-          'intocow': 'Bytes', 'unit': 'Unit', 'ptrself': 'Bytes', 'vref': 'Loc × Val', 'vroot': 'Val', 'bufself': 'Bytes', 'intotoken': 'Bytes', 'asrefptr': 'Bytes', 'docself': 'Val', 'val': 'Val'}
+          'intocow': 'Bytes', 'unit': 'Unit', 'ptrself': 'Bytes', 'vref': 'Loc × Val', 'vroot': 'Val', 'bufself': 'Bytes', 'intotoken': 'Bytes', 'asrefptr': 'Bytes', 'docself': 'Val', 'val': 'Val', 'kvlist': 'List (Bytes × Val)', 'vallist': 'List Val'}
 
 # enums the subset may match on / construct: type tag -> [(lean ctor, [rust paths], [field types])]
 ENUMS = {
@@ -223,6 +229,9 @@ class Fn:
             if k == 'block':
                 stmts(e[1], decl)
                 if e[2] is not None: expr(e[2], decl)
+            elif k == 'mcall' and e[2] == 'insert' and e[1][0] == 'path' and len(e[1][1]) == 1 and len(e[3]) == 2:
+                if e[1][1][0] not in decl: add(e[1][1][0])
+                for a in e[3]: expr(a, decl)
             elif k == 'mcall' and e[1] == ('field', ('path', ['self']), '0') and e[2] in ('push', 'push_str', 'insert', 'insert_str', 'pop', 'clear', 'split_off'):
                 add('self_0')
                 for a in e[3]: expr(a, decl)
@@ -307,6 +316,11 @@ class Fn:
         if t == 'char':
             if len(e[1].encode('utf-8')) != 1: raise Unsupported("non-ASCII char literal")
             return k(str(ord(e[1])), 'nat')
+        if t == 'veclit':
+            def gov(i, acc):
+                if i == len(e[1]): return k('[' + ', '.join(acc) + ']', 'vallist')
+                return self.E(e[1][i], env, ctx, lambda a, ta: gov(i + 1, acc + [a]) if ta == 'val' else self.bad("vec! of " + ta))
+            return gov(0, [])
         if t == 'closure': raise Unsupported("closure outside a known combinator")
         if t == 'path':
             segs = e[1]; ps = self.pathstr(segs)
@@ -418,6 +432,11 @@ class Fn:
                 old = self.fresh('old')
                 return self.E(args[1], env, ctx, lambda a, ta: f"let {old} := self_doc\nlet self_doc := {a}\n{k(old, 'val')}" if ta == 'val' else self.bad("mem::replace with " + ta))
             if ps == 'Table::default' and not args: return k('TABLE0', 'table0')
+            if ps in ('Map::new', 'Table::new', 'toml::Table::new', 'serde_json::Map::new') and not args: return k('([] : List (Bytes × Val))', 'kvlist')
+            if ps == 'Value::Array' and len(args) == 1:
+                return self.E(args[0], env, ctx, lambda a, ta: k(f"(Val.arr {a})", 'val') if ta == 'vallist' else self.bad("Value::Array(" + ta + ")"))
+            if ps in ('Value::Object', 'Value::Table') and len(args) == 1:
+                return self.E(args[0], env, ctx, lambda a, ta: k(f"(Val.obj {a})", 'val') if ta == 'kvlist' else self.bad(ps + "(" + ta + ")"))
             if ps in ('Vec::new', 'String::new') and not args: return k('([] : Bytes)', 'bytes')
             if ps == 'String::from' and len(args) == 1: return self.E(args[0], env, ctx, lambda a, ta: k(a, 'bytes') if ta in BYTESLIKE else self.bad("String::from(" + ta + ")"))
             if ps == 'ParseIndexError::InvalidCharacter' and len(args) == 1:
@@ -607,6 +626,7 @@ class Fn:
             if is_res(tr) and name == 'map_err' and len(args) == 1 and args[0] in (('path', ['ParseIndexError', 'from']), ('path', ['ParseIndexError', 'from_'])): return k(r, tr)
             if tr == 'intotoken' and name == 'into' and not args: return k(r, 'tok')
             if tr == 'asrefptr' and name == 'as_ref' and not args: return k(r, 'ptrself')
+            if tr == 'tok' and name == 'to_string' and not args: return k(f"(Token.toString {r})", 'bytes')     # Display = decoded
             if tr in BYTESLIKE and name in ('to_string', 'to_owned', 'clone') and not args: return k(r, 'bytes')
             if tr == 'toklist' and name == 'into_iter' and not args: return k(r, 'toklist')
             if tr == 'toklist' and name == 'map' and len(args) == 1 and args[0] == ('path', ['Into', 'into']): return k(r, 'toklist')
@@ -614,6 +634,7 @@ class Fn:
                 tl = self.fresh('tail')
                 return self.E(args[0], env, ctx, lambda n, tn: f"let {tl} := self_0.drop {n}\nlet self_0 := self_0.take {n}\n{k(tl, 'bytes')}")
             # ---- tree walks ------------------------------------------------------------------------
+            if tr == 'tok' and name == 'to_string' and not args: return k(f"(Token.toString {r})", 'bytes')
             if tr == 'tok' or (tr in ('bytes',) and name in ('to_index', 'decoded')):
                 if name == 'to_index' and not args: return k(f"(Token.toIndex {r})", mk_res('index', 'pie'))
                 if name == 'decoded' and not args: return k(f"(Token.decoded {r})", 'cow')
@@ -898,6 +919,17 @@ class Fn:
                     inner = pre + inner
                 alts.append(f"| {lc}{''.join(' ' + n for n in names)} =>\n{ind(inner)}")
             return paren(f"match {smatch} with\n" + '\n'.join(alts))
+        if ty in BYTESLIKE:
+            alts_ = p[1] if p[0] == 'por' else [p]
+            if any(q[0] != 'pstr' for q in alts_): raise Unsupported("pattern on a string")
+            if any(not self.irrefutable(q) for i, q in enumerate(pats) if i != col): raise Unsupported("two refutable columns")
+            test = ' ∨ '.join(f"{s} = [{', '.join(map(str, q[1]))}]" for q in alts_)
+            if len(alts_) > 1: test = '(' + test + ')'
+            if guard is not None: test = f"{test} ∧ {self.P(guard, env)}"
+            body = body_k(payload, env)
+            restc = self.compile_match(rows[1:], scruts, env, body_k)
+            if restc is None: raise Unsupported("non-exhaustive string match")
+            return paren(f"if {test} then\n{ind(body)}\nelse\n{ind(restc)}")
         if ty == 'nat':
             lits = [self.lit_of(q) for q in (p[1] if p[0] == 'por' else [p])]
             if any(l is None for l in lits): raise Unsupported("pattern on a number")
@@ -1020,6 +1052,10 @@ class Fn:
                     return self.E(args[1], env, ctx, aft_x)
                 return self.E(args[0], env, ctx, aft_i)
             raise Unsupported("String method " + name)
+        if t == 'mcall' and e[2] == 'insert' and e[1][0] == 'path' and len(e[1][1]) == 1 and env.get(e[1][1][0]) == 'kvlist' and len(e[3]) == 2:
+            v = e[1][1][0]
+            return self.E(e[3][0], env, ctx, lambda kk, tk: self.E(e[3][1], env, ctx,
+                          lambda vv, tv: f"let {v} := insertKey {kk} {vv} {v}\n{rest(env)}" if tv == 'val' and tk in BYTESLIKE else self.bad("Map::insert types")))
         if t == 'mcall' and e[2] == 'remove' and e[1][0] == 'path' and len(e[1][1]) == 1 and env.get(e[1][1][0]) == 'bytes' and e[3] == [('num', 0)]:
             v = e[1][1][0]
             return f"let {v} := {v}.drop 1\n{rest(env)}"
@@ -1295,7 +1331,6 @@ class Fn:
     def whilelet_loop(self, e, env, ctx, rest):
         """`while let Some(pat) = <pure option expr> { body }` — fuel = length of the byte string the header consumes + 1"""
         pat, hdr, body = self.strip_ref(e[1]), e[2], self.norm_stmt_block(e[3])
-        if self.retkind == 'pure': raise Unsupported("while-let loop in a function that cannot panic")
         if not (pat[0] == 'pctor' and self.pathstr(pat[1]) == 'Some' and len(pat[2]) == 1): raise Unsupported("while let pattern")
         if not (hdr[0] == 'mcall' and hdr[1][0] == 'path' and len(hdr[1][1]) == 1 and env.get(hdr[1][1][0]) in ('ptrself', 'bytes')):
             raise Unsupported("while let header")
@@ -1316,7 +1351,9 @@ class Fn:
         params = ''.join(f" ({c} : {self.lty(env, c)})" for c in caps)
         argtys = ['Nat'] + [self.lty(env, v) for v in muts]
         self.loops.append(
-            f"def {lname}{params} : {' → '.join(argtys)} → {rty}\n  | {', '.join(['0'] + ['_'] * len(muts))} => .ret (.panic \"fuel\")\n"
+            f"def {lname}{params} : {' → '.join(argtys)} → {rty}\n" +
+            (f"  | {', '.join(['0'] + ['_'] * len(muts))} => .ret (.panic \"fuel\")\n" if self.retkind != 'pure' else
+             f"  | {', '.join(['0'] + muts)} => .done {sigma}\n") +
             f"  | {', '.join(['_fuel + 1'] + muts)} =>\n{ind(loop_code, 4)}")
         callsite = f"{lname} {' '.join(caps + [f'({consumed}.length + 1)'] + muts)}"
         return self.after_loop(callsite, True, muts, sigma, env, ctx, rest)
